@@ -190,6 +190,20 @@ def isString (t : List Byte) : Bool :=
   | 39 :: r => stringBody (r.length + 1) r == some []
   | _ => false
 
+/-- the body of a string (between the apostrophes) as a sequence of the grammar's units — the declarative reading of the
+    `string` production that `isString` decides -/
+inductive StringBody : List Byte → Prop where
+  | nil : StringBody []
+  | nonq {c : Byte} {m : List Byte} : isNonQ c = true → StringBody m → StringBody (c :: m)
+  | apos {m : List Byte} : StringBody m → StringBody (39 :: 39 :: m)
+  | backslash {m : List Byte} : StringBody m → StringBody (92 :: 92 :: m)
+  | page {c : Byte} {m : List Byte} : isCharacter c = true → StringBody m → StringBody (92 :: 83 :: 92 :: c :: m)
+  | alphabet {u : Byte} {m : List Byte} : isUpperP21 u = true → StringBody m → StringBody (92 :: 80 :: u :: 92 :: m)
+  | arbitrary {h1 h2 : Byte} {m : List Byte} : isHexP21 h1 = true → isHexP21 h2 = true → StringBody m →
+      StringBody (92 :: 88 :: 92 :: h1 :: h2 :: m)
+  | extended {w : Byte} {hs m : List Byte} : w = 50 ∨ w = 52 → hs.all isHexP21 = true → StringBody m →
+      StringBody (92 :: 88 :: w :: 92 :: (hs ++ 92 :: 88 :: 48 :: 92 :: m))
+
 /-- lenient: any text between two apostrophes.  stepcode keeps string values in their *encoded* form (the literal
     itself, quotes included) and never decodes control directives, so such a token evidently spells itself. -/
 def isStringLenient (t : List Byte) : Bool :=
